@@ -51,3 +51,41 @@ Theorem C02_start_is_admission :
     adms (lm (fst (poll c s i))) = now s :: adms (lm s).
 Proof. exact start_is_admission. Qed.
 Print Assumptions C02_start_is_admission.
+
+(* The window theorems above are about ALL admissions: in every reachable state of the fixed window and of
+   the sliding counter the ghost windows are non-empty, the oldest one starts at the limiter's creation
+   (instant 0), and the admission history is exactly the admissions recorded in the windows. *)
+Theorem C02_every_admission_in_a_window :
+  forall (c : cfg) (evs : list ev),
+    wt c <> SlidingLog ->
+    Forall (fun s => (exists rest a, wins (lm s) = rest ++ [(0, a)]) /\
+                     adms (lm s) = concat (map snd (wins (lm s))))
+           (states (step_st c) (init c) evs).
+Proof. exact every_admission_in_a_window. Qed.
+Print Assumptions C02_every_admission_in_a_window.
+
+(* The property as worded, over the admission history itself (fixed window and sliding counter): in every
+   reachable state the window-opening instants (newest first; the oldest is 0) cut time from 0 on into
+   consecutive windows [cut, next cut) - the newest one unbounded -, consecutive cuts at least
+   refresh_period apart, each window containing at most limit_for_period of all admission instants
+   [adms] (count_in s hi a = number of x in a with s <= x < hi), and no admission lies before 0.
+   cuts_ok c hi cuts a := for cuts = s :: rest:  s + period c <= hi  /\  count_in s hi a <= limit c
+   /\  cuts_ok c (Some s) rest a. *)
+Theorem C02_cuttable :
+  forall (c : cfg) (evs : list ev),
+    wfc c -> wt c <> SlidingLog ->
+    Forall (fun s => let cuts := map fst (wins (lm s)) in
+                     last cuts 1 = 0 /\ Forall (fun x => 0 <= x) (adms (lm s)) /\
+                     cuts_ok c None cuts (adms (lm s)))
+           (states (step_st c) (init c) evs).
+Proof. exact cuttable_reach. Qed.
+Print Assumptions C02_cuttable.
+
+(* Conversely to C02_start_is_admission: a poll that makes the admission history grow starts exactly one
+   inner call (so "admission" and "reaches the wrapped service" are the same events). *)
+Theorem C02_admission_is_start :
+  forall (c : cfg) (s : st) (i : nat),
+    wfc c -> adms (lm (fst (poll c s i))) <> adms (lm s) ->
+    started (snd (poll c s i)) = true /\ entered (fst (poll c s i)) i = entered s i + 1.
+Proof. exact consumed_permit_starts. Qed.
+Print Assumptions C02_admission_is_start.
